@@ -5,7 +5,7 @@ from harness.core import q, qlist, natlist, zlist, cbool, Case, guarded, ImplErr
 
 RULE = ('exhaustive: every series over {-2..2} up to length 6 (quick) / 7 (thorough) and {-3..3} up to 4 / 5, for zero crossings (keep_adj_zeros in {T,F}; tol in {1/2, 1, 2} up to length 4 / 6) '
         'and switched peaks (tol in {0, 1/2, 1, 2}; all-zero series excluded); random excursion series (>=3 levels per excursion, zero runs) up to length 300 / 3000, scaled copies (2^-30, 2^20) and real-valued series; '
-        'tolerances placed exactly on sample magnitudes; the subsequence clause (tol>0 result inside tol=0 result) is evaluated on the implementation outputs themselves; indices compared exactly; '
+        'calls that omit keep_adj_zeros (default False) on every series over {-1,0,1} up to length 5 with adjacent zeros and on random series with zero runs; tolerances placed exactly on sample magnitudes; the subsequence clause (tol>0 result inside tol=0 result) is evaluated on the implementation outputs themselves; indices compared exactly; '
         'non-trivial = series contains a strict sign change or an exact zero')
 TRUSTED = [
     'Coq 8.16.1 kernel + vm_compute',
@@ -29,14 +29,21 @@ def run(rep, rng, tier):
     rep.prove('Prop_C11_source', gen_failed=regen_c11())
     zcs, sps, subs = [], [], []
 
-    def add_zc(xs, keep, tol, store=float):
+    def add_zc(xs, keep, tol, store=float, omit=False):
         # store: the numpy dtype the caller keeps the record in (raw digitiser counts are int16/int32): same numbers, same crossings
-        site = 'get_zero_crossings_array_indices[keep_adj_zeros=%s,tol%s0]' % (keep, '>' if tol > 0 else '=')
+        # omit: the call leaves keep_adj_zeros out (documented default False: only the first zero of each run)
+        site = 'get_zero_crossings_array_indices[keep_adj_zeros=%s,tol%s0]' % ('omitted (default False)' if omit else keep, '>' if tol > 0 else '=')
         args = {'values': list(map(float, xs)), 'keep_adj_zeros': keep, 'tol': tol}
+        if omit:
+            assert keep is False
+            args['keep_adj_zeros'] = 'not passed'
         if store is not float:
             site += '[%s record]' % np.dtype(store).name
             args['stored_as'] = np.dtype(store).name
-        r = core.guarded_pure(zc, np.array(xs, dtype=store), keep_adj_zeros=keep, tol=tol)
+        kw = {'tol': tol} if tol > 0 or not omit else {}
+        if not omit:
+            kw['keep_adj_zeros'] = keep
+        r = core.guarded_pure(zc, np.array(xs, dtype=store), **kw)
         if isinstance(r, ImplError):
             rep.violation(site, {'function': site, 'args': args, 'impl_error': str(r)})
             return None
@@ -124,6 +131,23 @@ def run(rep, rng, tier):
         xs = [int(round(v * 4)) * (top // int(4 * m + 1)) for v in base]
         add_zc(xs, k % 2 == 0, 0.0, store=store)
         add_sp(xs, 0.0, store=store)
+    # calls that do not pass keep_adj_zeros at all (the documented default is False): every short series over {-1, 0, 1} that
+    # holds a run of adjacent exact zeros, and random excursion series with zero runs (zero-padded start, rests, zero tail)
+    n_omit = 0
+    for xs in gens.all_series(range(-1, 2), 2, 5, nonconstant=False):
+        if any(a == 0 and b == 0 for a, b in zip(xs, xs[1:])) and any(xs):
+            add_zc(xs, False, 0.0, omit=True)
+            n_omit += 1
+    for k in range(40):
+        xs = gens.excursion_series(rng, gens.small_len(rng, 4, 120))
+        i = rng.randrange(len(xs))
+        xs = [0] * rng.randint(0, 3) + xs[:i] + [0] * rng.randint(2, 4) + xs[i:] + [0] * rng.randint(0, 3)
+        sc = rng.choice([1.0, 0.125, 2.0 ** -30])
+        xs = [v * sc for v in xs]
+        mags = sorted(set(abs(v) for v in xs if v != 0))
+        add_zc(xs, False, 0.0 if k % 3 else mags[len(mags) // 2], store=(np.int16 if sc == 1.0 and k % 2 else float), omit=True)
+        n_omit += 1
+    rep.extra['keep_adj_zeros_omitted_cases'] = n_omit
     # all-zero series: 'for every series the switched-peak indices are strictly ascending' (constant non-zero series are fine:
     # the proved value there is [0]); listed in known_findings.json while it persists
     for n in (1, 2, 3, 7):
